@@ -167,6 +167,16 @@ impl<B: FA> Air for GenAir<B> {
         &self.context
     }
 
+    /// a computation may choose another LDE coset than the default one (provided trait method, overridden
+    /// here when the statement says so); any offset outside the LDE subgroup is admissible
+    fn domain_offset(&self) -> B {
+        match self.desc.offset_sel {
+            1 => B::GENERATOR.inv(),
+            2 => B::GENERATOR * B::GENERATOR * B::GENERATOR,
+            _ => self.options().domain_offset(),
+        }
+    }
+
     fn evaluate_transition<E: FieldElement<BaseField = B>>(&self, frame: &EvaluationFrame<E>, periodic: &[E], result: &mut [E]) {
         let cur = frame.current();
         let next = frame.next();
